@@ -65,29 +65,50 @@ theorem hdNotify_core (s : RState) (c : Conn) (r : Option String) :
     (hdNotify s c r).lastWills = s.lastWills := by
   cases r <;> exact ⟨rfl, rfl, rfl, rfl, rfl, rfl, rfl, rfl, rfl, rfl, rfl⟩
 
-/-- what `handle_disconnection` does to the slab, the connection map and the ghost history -/
+/-- what `handle_disconnection` does to the slab, the connection map and the ghost history: the
+    state `s1` it has built when it finally wakes the parked members of the groups whose turn moved
+    (`wakeParked`: trackers, ready queue and waiter lists only) -/
 theorem handleDisconnection_effect {s s' : RState} {id : Nat} {r : Option String}
     (h : handleDisconnection s id r = .ok s') :
     (getConn s id = none ∧ s' = s) ∨
-    ∃ c, getConn s id = some c ∧ s'.conns = s.conns.remove id ∧
-      s'.connectionMap = aremove c.clientId s.connectionMap ∧ s'.config = s.config ∧
-      s'.ghost = s.ghost ++ [.removed id c.clientId c.clean] := by
+    ∃ c s1 logs, getConn s id = some c ∧ s1.conns = s.conns.remove id ∧
+      s1.connectionMap = aremove c.clientId s.connectionMap ∧ s1.config = s.config ∧
+      s1.ghost = s.ghost ++ [.removed id c.clientId c.clean] ∧ wakeParked s1 logs = .ok s' := by
   rw [handleDisconnection_eq] at h
   split at h
   · rename_i hc
     simp only [Except.ok.injEq] at h; exact .inl ⟨hc, h.symm⟩
   · rename_i c hc
-    refine .inr ⟨c, hc, ?_⟩
-    have k := hdNotify_core s c r
-    simp only [] at h
-    split at h
+    refine .inr ⟨c, _, _, hc, ?_, ?_, ?_, ?_, h⟩
     all_goals
-      simp only [Except.ok.injEq] at h; subst h
-      refine ⟨?_, ?_, ?_, ?_⟩
-      · show (hdNotify s c r).conns.remove id = _; rw [k.1]
-      · show aremove c.clientId (hdNotify s c r).connectionMap = _; rw [k.2.2.1]
-      · exact k.2.1
-      · show (hdNotify s c r).ghost ++ _ = _; rw [k.2.2.2.1]
+      have k := hdNotify_core s c r
+      unfold hdFinal
+      simp only []
+      split
+    · show (hdNotify s c r).conns.remove id = _; rw [k.1]
+    · show (hdNotify s c r).conns.remove id = _; rw [k.1]
+    · show aremove c.clientId (hdNotify s c r).connectionMap = _; rw [k.2.2.1]
+    · show aremove c.clientId (hdNotify s c r).connectionMap = _; rw [k.2.2.1]
+    · exact k.2.1
+    · exact k.2.1
+    · show (hdNotify s c r).ghost ++ _ = _; rw [k.2.2.2.1]
+    · show (hdNotify s c r).ghost ++ _ = _; rw [k.2.2.2.1]
+
+/-- the connections after `handle_disconnection`: `id` is gone, the others differ at most in
+    their tracker (the wake-up of parked group members) -/
+theorem handleDisconnection_conns {s s' : RState} {id : Nat} {r : Option String} {c : Conn}
+    (hc : getConn s id = some c) (h : handleDisconnection s id r = .ok s') :
+    getConn s' id = none ∧ ∀ j d, j ≠ id → getConn s j = some d → ∃ t, getConn s' j = some { d with tracker := t } := by
+  rcases handleDisconnection_effect h with ⟨hn, _⟩ | ⟨c', s1, logs, _, e1, _, _, _, hw⟩
+  · rw [hc] at hn; simp at hn
+  · have hg : ∀ j, getConn s1 j = if j = id then none else getConn s j := fun j => by
+      unfold getConn; rw [e1, Slab.get?_remove]
+    have sh := wakeParked_shape hw
+    refine ⟨?_, fun j d hj hd => ?_⟩
+    · rw [sh.none_iff, hg]; simp
+    · have : getConn s1 j = some d := by rw [hg]; simp [hj, hd]
+      obtain ⟨d', hd', t, rfl⟩ := sh.live this
+      exact ⟨t, hd'⟩
 
 theorem getConn_remove (s s' : RState) (id j : Nat) (h : s'.conns = s.conns.remove id) :
     getConn s' j = if j = id then none else getConn s j := by
@@ -95,9 +116,10 @@ theorem getConn_remove (s s' : RState) (id j : Nat) (h : s'.conns = s.conns.remo
 
 theorem AdmInv.handleDisconnection {s s' : RState} {id : Nat} {r : Option String} (hi : AdmInv s)
     (h : handleDisconnection s id r = .ok s') : AdmInv s' := by
-  rcases handleDisconnection_effect h with ⟨_, rfl⟩ | ⟨c, hc, e1, e2, e3, _⟩
+  rcases handleDisconnection_effect h with ⟨_, rfl⟩ | ⟨c, s1, logs, hc, e1, e2, e3, _, hw⟩
   · exact hi
-  · have hg := fun j => getConn_remove s s' id j e1
+  · refine AdmInv.shape (id := 0) (s := s1) ?_ (wakeParked_shape hw).rt_rw
+    have hg := fun j => getConn_remove s s1 id j e1
     refine ⟨by rw [e1]; exact Slab.wf_remove hc hi.wf, ?_, ?_, ?_⟩
     · unfold ConnBound; rw [e1, e3]
       have := Slab.len_remove_live hc
@@ -129,12 +151,13 @@ theorem hnTakeover_spec {s s1 : RState} {spec : ConnectSpec} (hi : AdmInv s) (h 
   split at h
   · rename_i old hold
     refine ⟨hi.handleDisconnection h, ?_⟩
-    rcases handleDisconnection_effect h with ⟨hn, _⟩ | ⟨c, hc, _, e2, e3, _⟩
+    rcases handleDisconnection_effect h with ⟨hn, _⟩ | ⟨c, s0, logs, hc, _, e2, e3, _, hw⟩
     · obtain ⟨c, hc, _⟩ := hi.map.1 _ _ hold
       rw [hc] at hn; simp at hn
     · obtain ⟨c', hc', e⟩ := hi.map.1 _ _ hold
       rw [hc] at hc'; simp only [Option.some.injEq] at hc'; subst hc'
-      rw [e2, e]
+      have sh := wakeParked_shape hw
+      rw [sh.cmap, sh.config, e2, e]
       exact ⟨alookup_aremove_same _ _, e3⟩
   · rename_i hnone
     simp only [Except.ok.injEq] at h; subst h
@@ -203,7 +226,9 @@ def hnPre (s : RState) (spec : ConnectSpec) : RState :=
   let s2 := hnWill { s with graveyard := aremove spec.clientId s.graveyard } spec
   let conn := hnConn spec restored
   let ins := s2.conns.insert conn
-  let s3 : RState := { s2 with conns := ins.1, connectionMap := ainsert spec.clientId ins.2 s2.connectionMap }
+  let s3 : RState := { s2 with conns := ins.1, connectionMap := ainsert spec.clientId ins.2 s2.connectionMap,
+                               subscriptionMap := (hnSubs restored).foldl (fun m f => subscriptionMapAdd m f ins.2) s2.subscriptionMap,
+                               shared := rejoinGroups s2.config.strategy spec.clientId (hnTracker spec restored).requests s2.shared }
   let acks := hnAcks spec ins.2 prev restored
   let s4 := setConn s3 ins.2 { conn with acks := { committed := acks } }
   let s5 := s4.g (.registered ins.2 spec.link spec.clientId spec.clean (!spec.clean && prev))
